@@ -27,13 +27,16 @@ pump call), so a stale snapshot is not mistaken for a re-check.
   R04.4 the inlined copy of the pump in handle_event has the same projected trace set as pump(gen, None) (or handle_event delegates).
   R04.5 NextLayer._handle_event buffers the event before anything else, exactly once; _ask replays self.events in list
         order, each exactly once, without mutating the list before/while replaying, rebinds _handle_event to the chosen
-        layer, and leaves the buffer alone while undecided.  TunnelLayer.event_to_child either queues or forwards each
-        event exactly once (queue iff ESTABLISHING and nobody waits for OpenConnection); _handshake_finished leaves
-        ESTABLISHING before replaying _event_queue in order, each exactly once, no mutation before/while replaying.
-        (Helpers of these classes that touch the buffers / handlers / command_sources are inlined as well.)
+        layer, and leaves the buffer alone while undecided.  (Helpers of NextLayer that touch the buffer / handlers are inlined.)
+        TunnelLayer is decided by interpretation (pyint, harness shared with C14): a TunnelLayer object built from its own constructors,
+        a recording child layer, schedules of events fed to _handle_event and compared with a reference tunnel after every event -
+        each event is either queued or forwarded exactly once (queued iff ESTABLISHING and nobody waits for OpenConnection), and the
+        queued events reach the child exactly once, in arrival order, when the handshake completes; no private name or statement
+        shape is looked at.
 Refused (exit 2, never a verdict): no or several pump methods, a state-touching helper called where the path engine cannot inline it
 (nested in an expression) or with effectful arguments, a test of a stale ``command.blocking`` snapshot, replay by something else than a
-``for`` loop over the buffer, a property / tunnel state / rebind value the rule cannot evaluate.
+``for`` loop over the NextLayer buffer, a property / rebind value the rule cannot evaluate; for TunnelLayer whatever is outside the
+interpreter's subset (pyint).
 NOT decided: behaviour under real schedules (asyncio), layers overriding handle_event themselves, that every concrete
 layer only blocks through the pump. Clearing the replay buffers *after* the replay is not demanded (not necessary for
 the property once handlers are rebound / the state left ESTABLISHING).
@@ -51,6 +54,7 @@ from ..model import last_attr
 from ..paths import C
 from ..paths import R
 from ..selftest import Mutant
+from . import C14 as _H  # the interpretation harness for tunnel layers (TunnelLayer object + recording stubs + reference model)
 from ._helpers_A import ASpec
 from ._helpers_A import compare_pair
 from ._helpers_A import dataclass_fields
@@ -70,11 +74,12 @@ from ._helpers_A import truthiness_of
 PROP = "C04"
 REG = {
     "strength": "partial",
-    "technique": "CFG path enumeration with scenario-decided condition atoms (effect tables), trace-language checks, sibling trace-set agreement",
+    "technique": "CFG path enumeration with scenario-decided condition atoms (effect tables), trace-language checks, sibling trace-set agreement; "
+    "TunnelLayer's buffer by AST interpretation (pyint) of event schedules against a recording child and a reference tunnel",
     "claim": "Layer.handle_event/__process/__continue implement: queue while paused (append, nothing else), resume only with the awaited "
     "command's own completion (identity), FIFO drain re-checking the pause before every dequeue, each event handled exactly once, only "
     "`blocking is True` pauses and the command is marked handled before it is yielded; HttpLayer/RawQuicLayer record and route completions "
-    "by command; NextLayer/TunnelLayer replay buffered events in order exactly once.",
+    "by command; NextLayer/TunnelLayer replay buffered events in order exactly once (TunnelLayer: interpreted schedules against a reference model).",
     "note": "Loops unrolled twice; generator protocol (send/next/StopIteration) and deque/list/dict semantics are trusted library behaviour. "
     "Concrete layers are assumed to block only through Layer.handle_event.",
 }
@@ -1387,89 +1392,50 @@ def _nextlayer(ctx):
 
 
 def _tunnel(ctx):
+    """TunnelLayer's replay buffer, decided by INTERPRETING the class (pyint; the harness is shared with C14): a ``tunnel.TunnelLayer`` object is
+    built by interpreting its constructors (so the private buffer may be called and shaped as it likes), its child layer is a recording stub
+    that answers with scripted commands, and schedules of events are fed to ``_handle_event``.  After every event what the child received and
+    what was handed down is compared with the reference tunnel (``GoldenTunnel``): events are queued - nothing delivered - exactly while
+    ESTABLISHING without a pending OpenConnection, delivered exactly once otherwise, and replayed exactly once, in arrival order, when the
+    handshake completes (which requires that ESTABLISHING was left before the replay).  Renamed attributes, conditional expressions,
+    extracted helpers / properties, swap-and-drain instead of iterate-and-clear are interpreted like the original."""
     etc = ctx.func(TUN, "TunnelLayer.event_to_child")
-    hf = ctx.func(TUN, "TunnelLayer._handshake_finished")
-    ep = params_of(etc)
-    ctx.require(len(ep) == 1, "TunnelLayer.event_to_child no longer takes exactly one event parameter")
-    ep = ep[0]
-    topaque = {"event_to_child", "_handshake_finished", "_handle_event", "handle_event", "__init__"}
-    res_etc = _helper_resolver(ctx, TUN, "TunnelLayer", topaque, lambda n: isinstance(n, ast.Attribute) and attr_chain(n) in ("self._event_queue", "self.child_layer.handle_event"))
-    res_hf = _helper_resolver(ctx, TUN, "TunnelLayer", topaque, lambda n: isinstance(n, ast.Attribute) and (
-        attr_chain(n) == "self._event_queue" or (attr_chain(n) == "self.tunnel_state" and isinstance(n.ctx, ast.Store))))
-
-    def atom(expr, st, sp):
-        cp = compare_pair(expr, (ast.Is, ast.IsNot, ast.Eq, ast.NotEq))
-        if cp and attr_chain(cp[0]) == "self.tunnel_state" and attr_chain(cp[1]).startswith("TunnelState."):
-            pos = isinstance(cp[2], (ast.Is, ast.Eq))
-            if attr_chain(cp[1]) == "TunnelState.ESTABLISHING":
-                return ("E", pos)
-            if sp.scenario.get("E") is True:
-                return ("notE", not pos)  # any other state constant is false while ESTABLISHING
-            return None
-        p = truthiness_atom(expr, "self.command_to_reply_to")
-        return ("R", p) if p is not None else None
-
-    def label(node, st, sp):
-        out = []
-        _uninlined_guard(res_etc, node)
-        for n in _sub_exprs(node):
-            if isinstance(n, ast.Call):
-                if method_call_on(n, "self._event_queue"):
-                    out.append(("enqueue", method_call_on(n, "self._event_queue"), sp.v(n.args[0], st) if len(n.args) == 1 else ("?",)))
-                elif isinstance(n.func, ast.Attribute) and n.func.attr == "handle_event" and attr_chain(n.func.value) == "self.child_layer":
-                    out.append(("forward", sp.v(n.args[0], st) if len(n.args) == 1 else ("?",)))
-        return out
-
+    ctx.func(TUN, "TunnelLayer._handle_event")
+    if ctx.model.has(TUN, "TunnelLayer._handshake_finished"):
+        ctx.functions.add(f"{TUN}::TunnelLayer._handshake_finished")
+    env = _H._Env(ctx, layer=(TUN, "TunnelLayer"))
+    e1, e2, e3 = ("ev", "e1"), ("data", "other", b"x"), ("ev", "e3")
+    answer = {"ev": (("send", b"r1"), ("log",)), "data": (("send", b"r2"), ("foreign",))}
     w = (TUN, "TunnelLayer.event_to_child", etc)
+    replay_problem = None
+    n_replay = 0
     for E in (True, False):
         for Rr in (True, False):
-            sc = {"E": E, "R": Rr}
-            if E:
-                sc["notE"] = True
-            traces, _ = run_block(etc.body, LSpec(label=label, atom=atom, scenario=sc, unroll=1, resolver=res_etc, max_depth=4), {ep: ("param", ep)}, depth_aware=True)
-            ctx.paths += len(traces)
+            pending = "open-cmd" if Rr else None
+            bad = None
+            for s0 in ("E",) if E else ("O", "C", "I"):
+                for policy in ({}, answer):
+                    steps = [("other", e1), ("other", e2), ("other", e3)] + ([("wire", b"handshake bytes"), ("other", e2), ("other", e1)] if E else [])
+                    # only what the child is handed is this property's business (what happens to the child's commands is C14's)
+                    found, n = _H.run_schedule(env, _H.GoldenTunnel, {}, s0, pending, policy, steps, aspects=("crash", "child"))
+                    ctx.paths += 1
+                    for k, st, gstate, aspect, text in found:
+                        if st[0] == "wire":  # the completion of the handshake: replay (or the OpenConnection reply)
+                            replay_problem = replay_problem or f"tunnel_state={s0} pending={Rr}, event {k + 1}: {text}"
+                        else:
+                            bad = bad or f"tunnel_state={s0}, event {k + 1} ({'before' if gstate == 'E' else 'after'} the handshake completed): {text}"
+                    if E and not found:
+                        n_replay += 1
             ctx.cells += 1
-            ctx.require(traces, "TunnelLayer.event_to_child: no path")
-            want = (("enqueue", "append", ("param", ep)),) if (E and not Rr) else (("forward", ("param", ep)),)
-            bad = [tr for tr, how, _ in traces if proj(tr, ("enqueue", "forward")) != want]
+            want = "queued (nothing delivered), then replayed" if (E and not Rr) else "forwarded to the child"
             ctx.check(not bad, "R04.5", w, f"establishing={E} open_connection_pending={Rr}",
-                      f"the event must be {'queued' if E and not Rr else 'forwarded to the child'} exactly once; trace: {show(proj(bad[0], ('enqueue', 'forward'))) if bad else ''}",
-                      desc=f"TunnelLayer.event_to_child establishing={E} pending={Rr}: {show(want)}")
-
-    def is_replay(n):
-        return is_self_call(n, "event_to_child")
-
-    def extra(node, st, sp):
-        out = []
-        if isinstance(node, ast.Assign):
-            for t in node.targets:
-                if attr_chain(t) == "self.tunnel_state":
-                    if not attr_chain(node.value).startswith("TunnelState."):
-                        raise AnalysisError(f"TunnelLayer._handshake_finished: tunnel_state is set to {norm(node.value)}, not to a TunnelState member (shape not modelled)")
-                    out.append(("state", attr_chain(node.value)))
-        return out
-
-    sp = _replay_spec("self._event_queue", is_replay, extra, atom, {"R": False}, resolver=res_hf)
-    traces, _ = run_block(hf.body, sp, depth_aware=True)
-    ctx.paths += len(traces)
-    ctx.require(traces, "TunnelLayer._handshake_finished: no path")
-    wh = (TUN, "TunnelLayer._handshake_finished", hf)
-    prob = {}
-    for tr, how, _ in traces:
-        toks = proj(tr, ("loop", "replay", "mut", "state"))
-        why = _replay_ok(toks)
-        if not why:
-            first_loop = next(i for i, t in enumerate(toks) if t[0] == "loop")
-            st_before = [t for t in toks[:first_loop] if t[0] == "state"]
-            if not st_before or st_before[-1][1] not in ("TunnelState.OPEN", "TunnelState.CLOSED"):
-                why = ("leave ESTABLISHING first", "tunnel_state is not set to OPEN/CLOSED before the queued events are replayed - event_to_child would queue them "
-                       "again (into the list being iterated) instead of forwarding them")
-        if why:
-            prob.setdefault(why[0], (why[1], toks))
-    for cons, (why, toks) in prob.items():
-        ctx.fail("R04.5", wh, cons, f"{why}; trace: {show(toks)}")
-    if not prob:
-        ctx.ok("R04.5", f"TunnelLayer._handshake_finished (no pending OpenConnection): {len(traces)} paths replay _event_queue in order after leaving ESTABLISHING")
+                      f"the event must be {want} exactly once; {bad}",
+                      desc=f"TunnelLayer.event_to_child establishing={E} pending={Rr}: {want} exactly once (interpreted)")
+    wh = (TUN, "TunnelLayer._handshake_finished", ctx.model.func(TUN, "TunnelLayer._handshake_finished")) if ctx.model.has(TUN, "TunnelLayer._handshake_finished") else w
+    ctx.check(replay_problem is None, "R04.5", wh, "replay of queued events",
+              f"when the handshake completes the queued events must reach the child exactly once, in arrival order (ESTABLISHING left before the replay, "
+              f"the buffer not mutated while replaying); {replay_problem}",
+              desc=f"TunnelLayer: queued events replayed in order exactly once after leaving ESTABLISHING ({n_replay} schedules)")
 
 
 def check(ctx):
@@ -1534,6 +1500,10 @@ MUTANTS = [
            "            self.events.clear()\n            for e in self.events:\n                yield from self.layer.handle_event(e)\n", "R04.5"),
     Mutant("nextlayer-no-handle-event-rebind", F, "            self._handle_event = self.layer.handle_event  # type: ignore\n", "", "R04.5"),
     Mutant("tunnel-forwards-while-establishing", TUN, "            self._event_queue.append(event)\n            return\n", "            self._event_queue.append(event)\n", "R04.5"),
+    Mutant("tunnel-replay-reversed", TUN, "            for evt in self._event_queue:\n", "            for evt in reversed(self._event_queue):\n", "R04.5"),
+    Mutant("tunnel-queue-drops-event", TUN, "            self._event_queue.append(event)\n            return\n", "            return\n", "R04.5"),
+    Mutant("tunnel-queue-cleared-before-replay", TUN, "            for evt in self._event_queue:\n                yield from self.event_to_child(evt)\n            self._event_queue.clear()\n",
+           "            queued = self._event_queue\n            self._event_queue.clear()\n            for evt in queued:\n                yield from self.event_to_child(evt)\n", "R04.5"),
     Mutant("tunnel-replay-before-state-change", TUN, "        if err:\n            self.tunnel_state = TunnelState.CLOSED\n        else:\n            self.tunnel_state = TunnelState.OPEN\n        if self.command_to_reply_to:",
            "        if self.command_to_reply_to:", "R04.5"),
 ]
